@@ -456,8 +456,31 @@ template <class T>
 struct Ctrl {
   Atomic<long> strong{1};
   long weak{1};  // +1 for the group of strong owners; touched only by the running thread
+  T *ext{nullptr};                // object adopted through a pointer (shared_ptr<T>{p} / {p, deleter} / reset(p))
+  void (*del)(Ctrl *){nullptr};   // how an adopted object is destroyed (custom deleter), null: delete
+  void *dstate{nullptr};          // copy of the custom deleter
+  bool adopted{false};
   alignas(T) unsigned char buf[sizeof(T)];
-  T *Ptr() { return std::launder(reinterpret_cast<T *>(buf)); }
+  T *Ptr() { return adopted ? ext : std::launder(reinterpret_cast<T *>(buf)); }
+  void
+  Destroy()
+  {
+    if (!adopted) {
+      Ptr()->~T();
+    } else if (del != nullptr) {
+      del(this);
+    } else {
+      delete ext;
+    }
+  }
+  template <class D>
+  static void
+  RunDeleter(Ctrl *c)
+  {
+    auto *d = static_cast<D *>(c->dstate);
+    (*d)(c->ext);
+    delete d;
+  }
 };
 
 template <class T>
@@ -475,6 +498,36 @@ class SharedPtr
     if (c_) c_->strong.fetch_add(1, std::memory_order_relaxed);
   }
   SharedPtr(SharedPtr &&o) noexcept : c_{o.c_} { o.c_ = nullptr; }
+  // adoption of an existing object, with or without a custom deleter (it runs when the last owner goes away,
+  // i.e. right after the step that makes the strong count zero)
+  explicit SharedPtr(T *p) : c_{new Ctrl<T>{}}
+  {
+    c_->adopted = true;
+    c_->ext = p;
+  }
+  template <class D>
+  SharedPtr(T *p, D d) : c_{new Ctrl<T>{}}
+  {
+    c_->adopted = true;
+    c_->ext = p;
+    c_->dstate = new D(std::move(d));
+    c_->del = &Ctrl<T>::template RunDeleter<D>;
+  }
+  void
+  reset(T *p)
+  {
+    SharedPtr tmp{p};
+    std::swap(c_, tmp.c_);
+  }
+  template <class D>
+  void
+  reset(T *p, D d)
+  {
+    SharedPtr tmp{p, std::move(d)};
+    std::swap(c_, tmp.c_);
+  }
+  friend bool operator==(const SharedPtr &a, std::nullptr_t) noexcept { return a.c_ == nullptr; }
+  friend bool operator==(const SharedPtr &a, const SharedPtr &b) noexcept { return a.get() == b.get(); }
   auto
   operator=(const SharedPtr &o) noexcept -> SharedPtr &
   {
@@ -517,7 +570,7 @@ class SharedPtr
   {
     if (!c_) return;
     if (c_->strong.fetch_sub(1, std::memory_order_acq_rel) == 1) {
-      c_->Ptr()->~T();
+      c_->Destroy();
       if (--c_->weak == 0) delete c_;
     }
   }
